@@ -58,7 +58,7 @@ type failedT interface {
 func viaRun(root *rootT, g group, files []string, deadline time.Time) {
 	gname := fmt.Sprintf("g%d", g.id)
 	viaT.Run(gname, func(gt *testing.T) {
-		testscript.Run(gt, testscript.Params{Files: files, Deadline: deadline, Setup: func(e *testscript.Env) error {
+		testscript.Run(gt, testscript.Params{Files: files, Deadline: deadline, ContinueOnError: g.cases[0].Coe, Cmds: customCmds, Setup: func(e *testscript.Env) error {
 			name := strings.TrimPrefix(filepath.Base(e.WorkDir), "script-")
 			st := &subT{root: root}
 			root.mu.Lock()
